@@ -12,7 +12,7 @@ PROPERTY_ID = "C20"
 LEVEL = "exploration"
 RULE = (
     "case = 1-5 generated multi-extension FITS files (empty or image primary, 2-D image HDUs of unique shape / fill value / "
-    "CRVAL, 1-D image HDUs, binary tables, optional alternate WCS solutions A..C with their own CRVALs) x a selector for the "
+    "CRVAL, 1-D image HDUs without WCS, 1-D scan rows with a two-axis WCS (selectable explicitly, loaded as 1 x N, skipped by the automatic choice), binary tables, optional alternate WCS solutions A..C with their own CRVALs) x a selector for the "
     "HDU (none | scalar index | per-file list) x a selector for the WCS key (none/default | scalar | per-file list) x a route "
     "(collection.load, SimpleFitsCollection, CollectionLoader.create_from_args on an argparse namespace parsed from strings, "
     "toasty.tile_fits's argument plumbing). Model: file i contributes HDU idx / idx[i] / its first HDU holding >=2-D image "
@@ -41,6 +41,19 @@ def build_files(d, files):
             elif kind == "image1d":
                 data = np.arange(5, dtype=np.float32)
                 hdu = fits.PrimaryHDU(data) if hi == 0 else fits.ImageHDU(data)
+            elif kind == "row1d":
+                # a single scan row: 1-D data carrying a regular two-axis celestial WCS (loaded as a 1 x N image); the
+                # automatic choice skips it, an explicit selection must honour it
+                nx = h["shape"][1]
+                data = np.full((nx,), float(h["fill"]), dtype=np.float32)
+                hdu = fits.PrimaryHDU(data) if hi == 0 else fits.ImageHDU(data)
+                for key, crval in h["wcs"].items():
+                    w = WCS(naxis=2)
+                    w.wcs.ctype = ["RA---TAN", "DEC--TAN"]
+                    w.wcs.crval = [crval[0], crval[1]]
+                    w.wcs.crpix = [nx / 2 + 0.5, 1.0]
+                    w.wcs.cdelt = [-0.01, 0.01]
+                    hdu.header.update(w.to_header(key=key))
             elif kind == "cube":
                 ny, nx = h["shape"]
                 nf = h["nfreq"]
@@ -82,6 +95,7 @@ def build_files(d, files):
 
 
 IMAGE_KINDS = ("image2d", "comp2d", "cube")
+SELECTABLE = IMAGE_KINDS + ("row1d",)
 
 
 def first_image_hdu(hdus):
@@ -260,20 +274,20 @@ def strat(draw, tier):
     for fi in range(nfiles):
         n_ext = draw(st.integers(0, 4))
         hdus = []
-        prim = draw(st.sampled_from(["empty", "empty", "image2d", "image1d"]))
-        kinds = [prim] + [draw(st.sampled_from(["image2d", "image2d", "table", "image1d", "empty", "comp2d", "cube"])) for _ in range(n_ext)]
+        prim = draw(st.sampled_from(["empty", "empty", "image2d", "image1d", "row1d"]))
+        kinds = [prim] + [draw(st.sampled_from(["image2d", "image2d", "table", "image1d", "empty", "comp2d", "cube", "row1d"])) for _ in range(n_ext)]
         if not any(k in IMAGE_KINDS for k in kinds):
             kinds.append(draw(st.sampled_from(["image2d", "image2d", "comp2d", "cube"])))
         for k in kinds:
             h = {"kind": k}
-            if k in IMAGE_KINDS:
+            if k in SELECTABLE:
                 uid[0] += 1
                 u = uid[0]
                 if k == "cube":
                     h["nfreq"] = draw(st.sampled_from([1, 3]))
                     h["order"] = draw(st.sampled_from(["RDF", "FRD", "RFD"]))
                 keys = [" "] + draw(st.sampled_from([[], [], ["A"], ["A", "B"], ["B", "C"], ["A", "B", "C"]]))
-                h["shape"] = [3 + u, 40 - u]
+                h["shape"] = [3 + u, 40 - u] if k != "row1d" else [1, 40 - u]
                 h["fill"] = u * 1.5 if k != "comp2d" else u * 3
                 h["wcs"] = {key: [10.0 * u + 0.25 * j, -30.0 + u + 0.125 * j] for j, key in enumerate(keys)}
             hdus.append(h)
@@ -286,7 +300,7 @@ def strat(draw, tier):
     all_files = files
     files = [all_files[r] for r in refs]  # per list position, for the selectors below
     # selectors
-    img_idx = [[i for i, h in enumerate(f) if h["kind"] in IMAGE_KINDS] for f in files]
+    img_idx = [[i for i, h in enumerate(f) if h["kind"] in SELECTABLE] for f in files]
     kind = draw(st.sampled_from(["none", "scalar", "list", "list"]))
     if kind == "scalar":
         common = set(img_idx[0])
@@ -319,11 +333,12 @@ def strat(draw, tier):
         case["key_sel"] = {"kind": "list", "value": [draw(st.sampled_from(sorted(h["wcs"]))) for h in sel_hdus]}
     route = draw(st.sampled_from(["load", "simple", "cli", "cli", "tile_fits"]))
     if route == "cli":
-        # the command line cannot express a one-element list (it reads "2" as a scalar) nor the key " "
+        # the command line cannot express a one-element list (it reads "2" as a scalar); the blank key of the primary
+        # solution can be an entry of a longer list (`--wcs-key " ,A"`)
         if case["hdu_sel"]["kind"] == "list" and len(case["hdu_sel"]["value"]) == 1:
             case["hdu_sel"] = {"kind": "scalar", "value": case["hdu_sel"]["value"][0]}
         ks = case["key_sel"]
-        if ks["kind"] == "list" and (len(ks["value"]) == 1 or " " in ks["value"]):
+        if ks["kind"] == "list" and len(ks["value"]) == 1:
             ok = all(len(h["wcs"]) > 1 for h in sel_hdus) and len(sel_hdus) > 1
             if ok:
                 case["key_sel"] = {"kind": "list", "value": [sorted(k for k in h["wcs"] if k != " ")[0] for h in sel_hdus]}
